@@ -16,6 +16,10 @@ def run(tier):
                    dict(module="MC_CheckDetect.tla", cfg="MC_CheckDetect_ean.cfg", workers=2),
                    dict(module="MC_CheckDetect.tla", cfg="MC_CheckDetect_c93c.cfg", workers=2),
                    dict(module="MC_CheckDetect.tla", cfg="MC_CheckDetect_c93k.cfg", workers=2),
+                   dict(module="MC_CheckDetect.tla", cfg="MC_CheckDetect_c39.cfg", workers=2),
+                   dict(module="MC_CheckDetect.tla", cfg="MC_CheckDetect_c128.cfg", workers=2),
+                   # the standard's own limit: a substitution at data position 103 of a Code 128 symbol is invisible to the check character
+                   dict(module="MC_CheckDetect.tla", cfg="MC_CheckDetect_c128limit.cfg", workers=2, expect_violation="SingleSubstitutionDetected"),
                    dict(module="MC_CheckDetect.tla", cfg="MC_CheckDetect_reach.cfg", workers=1, expect_violation="HitReachable")])
     drive = vlib.build_harness(chk.work)
     rng = chk.rng
